@@ -55,8 +55,18 @@ Trusts == [T1 |-> {R1}, T12 |-> {R1, R2}]
 Wires == {"exact", "laxSerial", "trailing", "laxSerialTrailing"}
 IsCertificate(wire) == wire \in {"exact", "laxSerial"}
 
+\* where the poison extension sits among the precertificate's extensions: last (what an encoder that appends it
+\* produces), directly before the authority key identifier with further extensions after that, or first.  The logged
+\* TBSCertificate is the submitted one with exactly the poison taken out and, behind a precertificate signing
+\* certificate, issuer and authority key identifier replaced IN PLACE: every other extension keeps its bytes and its
+\* position whatever the order (law OrderIrrelevant: the expected entry does not depend on this dimension other than
+\* through the submitted bytes; the harness derives it independently).
+Orders == {"std", "poisonBeforeAki", "poisonFirst"}
+
 PreIssuers == {"viaP", "viaPf", "viaPm"}
-Shapes == {s \in [kind : Kinds, iss : Issuances, tail : Tails, key : Keys, quirk : Quirks, storage : Storages, trust : DOMAIN Trusts, wire : Wires] :
+Shapes == {s \in [kind : Kinds, iss : Issuances, tail : Tails, key : Keys, quirk : Quirks, storage : Storages, trust : DOMAIN Trusts, wire : Wires, order : Orders] :
+             /\ (s.order # "std" => /\ s.kind = "precert" /\ s.iss \in {"underI1", "viaP", "viaPf"} /\ s.tail \in {"noroot", "root"}
+                                     /\ s.quirk = "none" /\ s.key = "p256" /\ s.trust = "T1" /\ s.wire = "exact")
              /\ (s.iss \in PreIssuers => s.kind = "precert")
              /\ (s.tail \in {"cross", "crossroot"} => s.trust = "T12")
              \* the wire oddities are independent of the other dimensions: one representative combination each
